@@ -121,14 +121,17 @@ var propHarness = map[string]string{
 }
 
 // propHarness2: a second family for properties that span two packages.
-var propHarness2 = map[string]string{"C14": "sandbox", "C19": "policy386"}
+// C08 and C15 speak about what the kernel / the sandboxed target observes: that rests on the compiled program being
+// right, which is C01-C07's matter - their checks prove it; here the policy family is run as well, so that a change in
+// the compiler that breaks these two properties is reported by their own checks too.
+var propHarness2 = map[string]string{"C14": "sandbox", "C19": "policy386", "C08": "policy", "C15": "policy"}
 
 // kindsFor: which disagreement kinds of the family count as a failing input for the property.
 var kindsFor = map[string][]string{
 	"C01": {"decision", "fault"}, "C02": {"decision"}, "C03": {"decision"}, "C04": {"decision", "fault"},
 	"C05": {"kernel-verifier", "return-set", "fault"}, "C06": {"decision", "fault", "valid-rejected"},
 	"C07": {"panic", "invalid-accepted", "error-with-program", "valid-rejected"},
-	"C15": {"policy-truncated", "config-parse", "roundtrip-assemble", "ran-after-failure", "target-outside-policy", "target-not-run"},
+	"C15": {"policy-truncated", "config-parse", "roundtrip-assemble", "ran-after-failure", "target-outside-policy", "target-not-run", "decision", "fault"},
 	"C14": {"roundtrip", "marshal", "config-parse", "config-unpack", "roundtrip-assemble", "action-roundtrip", "operation-roundtrip", "unknown-action", "action-accepts-garbage", "operation-case", "action-case", "unknown-name-accepted"},
 	"C13": {"nondeterministic-text", "caller-policy-modified", "compile-differs", "recompile-differs", "compilations-influence-each-other", "result-overwritten", "text-results-share-memory"},
 	"C12": {"inverse", "alias", "unsupported", "panic"},
@@ -136,7 +139,7 @@ var kindsFor = map[string][]string{
 	"C17": {"incomplete-cache-reused", "failed-run-no-error", "complete-cache-not-reused"},
 	"C18": {"profile-set"},
 	"C16": {"panic", "silent-truncation", "bad-name", "not-monotone", "cross-function"},
-	"C08": {"handover-mismatch", "nil-but-not-in-force"},
+	"C08": {"handover-mismatch", "nil-but-not-in-force", "decision", "fault", "kernel-verifier"},
 	"C09": {"nil-but-not-in-force", "failed-load-left-state", "probe-changed-state"},
 	"C10": {"nil-but-not-in-force", "thread-not-covered", "flag-mismatch"},
 	"C11": {"failed-load-left-state", "nnp-wrong-thread"},
@@ -144,20 +147,32 @@ var kindsFor = map[string][]string{
 
 var familyCache = map[string][]map[string]interface{}{}
 
+// familyErrors: families that produced no result in this run (reported in the evidence; nothing is claimed from them)
+var familyErrors []string
+
 // findFailingInput looks for an input of the real code that exhibits the failed obligation:
 // the property's witness family is enumerated against the real code (in-package test injected by overlay).
 // familyMode: "search" (something failed or could not be decided: every part of the family runs) or "beside" (quick
 // tier, everything proved: the expensive enumerations are left to the thorough tier). Passed to the harness as VERIF_MODE.
 var familyMode = "search"
 
+// detHarness: families that only compute or run scripted, timing-free scenarios: run in both tiers. The others (they
+// talk to the kernel) run in the thorough tier and whenever a proof failed or could not be attempted.
+var detHarness = map[string]bool{"policy": true, "disasm": true, "text": true, "arch": true, "sandbox": true, "profiler": true, "policy386": true}
+
 func (e *Engine) findFailingInput(prop, id string, obs []*Obligation, tier string, seed int) (bool, interface{}) {
-	found, wit := e.findFailingInputIn(propHarness[prop], prop, tier, seed)
-	if !found && propHarness2[prop] != "" {
-		if f2, w2 := e.findFailingInputIn(propHarness2[prop], prop, tier, seed); f2 {
-			return f2, w2
+	var wit interface{}
+	for _, hn := range []string{propHarness[prop], propHarness2[prop]} {
+		if hn == "" || (familyMode == "beside" && tier != "thorough" && !detHarness[hn]) {
+			continue
+		}
+		if f, w := e.findFailingInputIn(hn, prop, tier, seed); f {
+			return true, w
+		} else if wit == nil {
+			wit = w
 		}
 	}
-	return found, wit
+	return false, wit
 }
 
 func (e *Engine) findFailingInputIn(hn0, prop, tier string, seed int) (bool, interface{}) {
@@ -174,8 +189,14 @@ func (e *Engine) findFailingInputIn(hn0, prop, tier string, seed int) (bool, int
 	if !cached {
 		data, out, _ := e.runOverlayTest(h, "TestVerifFamily", map[string]string{"VERIF_FAMILY": prop, "VERIF_SEED": fmt.Sprint(seed), "VERIF_TIER": tier, "VERIF_MODE": familyMode}, 300*time.Second)
 		if err := json.Unmarshal(data, &ds); err != nil {
-			familyCache[cacheKey] = nil
-			return false, map[string]string{"family_error": firstLines(out, 10)}
+			// one retry: under heavy load the build or the run can exceed its time limit
+			data, out, _ = e.runOverlayTest(h, "TestVerifFamily", map[string]string{"VERIF_FAMILY": prop, "VERIF_SEED": fmt.Sprint(seed), "VERIF_TIER": tier, "VERIF_MODE": familyMode}, 600*time.Second)
+			if err := json.Unmarshal(data, &ds); err != nil {
+				familyCache[cacheKey] = nil
+				familyErrors = append(familyErrors, hn0+": "+firstLines(out, 6))
+				fmt.Printf("note: witness family %s produced no result (not run, build error or time limit): %s\n", hn0, strings.ReplaceAll(firstLines(out, 3), "\n", " | "))
+				return false, map[string]string{"family_error": firstLines(out, 10)}
+			}
 		}
 		familyCache[cacheKey] = ds
 	}
